@@ -187,6 +187,7 @@ LoadStatus DepsLog::Load(const string& path, State* state, string* err) {
 
   long offset = ftell(f);
   bool read_failed = false;
+  bool torn_header = false;
   int unique_dep_record_count = 0;
   int total_dep_record_count = 0;
   for (;;) {
@@ -194,6 +195,8 @@ LoadStatus DepsLog::Load(const string& path, State* state, string* err) {
     if (fread(&size, sizeof(size), 1, f) < 1) {
       if (!feof(f))
         read_failed = true;
+      else if (ftell(f) != offset)
+        torn_header = true;  // 1-3 stray bytes of a record header.
       break;
     }
     bool is_deps = (size >> 31) != 0;
@@ -290,6 +293,12 @@ LoadStatus DepsLog::Load(const string& path, State* state, string* err) {
   }
 
   fclose(f);
+
+  // A partially written record header is cut off (quietly, like a clean end
+  // of file); otherwise the next session would append its records behind the
+  // stray bytes and the load after that would discard them all.
+  if (torn_header && !Truncate(path, offset, err))
+    return LOAD_ERROR;
 
   // Rebuild the log if there are too many dead records.
   int kMinCompactionEntryCount = 1000;
